@@ -382,7 +382,60 @@ def prog_odd(arg):
     return out
 
 
-PROGS = {'c04': prog_c04, 'c08': prog_c08, 'c14': prog_c14, 'c19': prog_c19, 'c20': prog_c20,
+ODD_NAMES = [b'', b'n', 0, 1, None, (), ('',), False, 0.0, 1.5, [], ['x'], {}, frozenset(),
+             'n', '', '\xe9', 'x' * 50]
+
+
+def prog_names(arg):
+    """Every name-taking entry point with non-string (falsy and truthy,
+    hashable and unhashable) names, on a cold cache and after the caches for
+    the key were filled under the names '' and 'n'."""
+    from zope.interface import Interface, implementer, providedBy
+    from zope.interface.interface import InterfaceClass
+    from zope.interface.adapter import AdapterRegistry, VerifyingAdapterRegistry
+    from zope.interface.registry import Components
+    flavour, warm = arg
+    newworld()
+    I0 = InterfaceClass('I0', (Interface,), {'__module__': wmod()})
+    I1 = InterfaceClass('I1', (Interface,), {'__module__': wmod()})
+    A = implementer(I0)(type('A', (), {}))
+    ob = A()
+    out = []
+    for nm_ in ODD_NAMES:
+        label = repr(nm_)[:12]
+        reg = (AdapterRegistry if flavour == 'adapter' else VerifyingAdapterRegistry)()
+        reg.register([I0], I1, '', lambda o: ('adapted', ''))
+        reg.register([I0], I1, 'n', lambda o: ('adapted', 'n'))
+        reg.register([I0, I0], I1, '', lambda o, p: ('adapted2', ''))
+        if warm:
+            for w in ('', 'n'):
+                reg.lookup([providedBy(ob)], I1, w)
+                reg.lookup1(providedBy(ob), I1, w)
+                reg.queryAdapter(ob, I1, w)
+                reg.adapter_hook(I1, ob, w)
+                reg.queryMultiAdapter((ob, ob), I1, w)
+        spec = providedBy(ob)
+        _call(out, label + ':lookup', lambda: reg.lookup([spec], I1, nm_, 'D'))
+        _call(out, label + ':lookup-kw', lambda: reg.lookup([spec], I1, name=nm_))
+        _call(out, label + ':lookup1', lambda: reg.lookup1(spec, I1, nm_, 'D'))
+        _call(out, label + ':lookup2', lambda: reg.lookup([spec, spec], I1, nm_, 'D'))
+        _call(out, label + ':queryAdapter', lambda: reg.queryAdapter(ob, I1, nm_, 'D'))
+        _call(out, label + ':adapter_hook', lambda: reg.adapter_hook(I1, ob, nm_, 'D'))
+        _call(out, label + ':queryMultiAdapter', lambda: reg.queryMultiAdapter((ob, ob), I1, nm_, 'D'))
+        _call(out, label + ':registered', lambda: reg.registered([I0], I1, nm_) is not None)
+        _call(out, label + ':register', lambda: reg.register([I0], I1, nm_, 'v'))
+        _call(out, label + ':lookup-after', lambda: reg.lookup([spec], I1, '', 'D') == 'v')
+        _call(out, label + ':unregister', lambda: reg.unregister([I0], I1, nm_))
+        if flavour == 'adapter':
+            c = Components()
+            _call(out, label + ':registerUtility', lambda: c.registerUtility(ob, I0, nm_))
+            _call(out, label + ':queryUtility', lambda: c.queryUtility(I0, nm_, 'D') is ob)
+            _call(out, label + ':registerAdapter', lambda: c.registerAdapter(A, [I0], I1, nm_))
+            _call(out, label + ':queryAdapter', lambda: type(c.queryAdapter(ob, I1, nm_, 'D')).__name__)
+    return out
+
+
+PROGS = {'names': prog_names, 'c04': prog_c04, 'c08': prog_c08, 'c14': prog_c14, 'c19': prog_c19, 'c20': prog_c20,
          'odd': prog_odd}
 
 
@@ -529,8 +582,9 @@ def run(ctx):
     small = [a for a in arglists if len(a) <= 2]
     sets.append(('c20', [(a, b) for a in small for b in arglists]))
     sets.append(('odd', [0, 1, 2, 3]))
+    sets.append(('names', [(f, w) for f in ('adapter', 'verifying') for w in (False, True)]))
     for kind, items in sets:
-        size = 1 if kind == 'odd' else max(20, len(items) // (NPROC * 4))
+        size = 1 if kind in ('odd', 'names') else max(20, len(items) // (NPROC * 4))
         parts = chunks(items, size)
         rc = ctx.map('c', 'run_programs', [(kind, p, kind == 'odd') for p in parts])
         rp = ctx.map('py', 'run_programs', [(kind, p, kind == 'odd') for p in parts])
